@@ -2,7 +2,9 @@
 From Coq Require Import NArith PArith List Bool Permutation.
 From Blue Require Import Gen.Const_Gc Setsum.Model Setsum.Proofs Gc.Model Gc.ModelLiteral Gc.Spec
   Gc.Discard Gc.Proofs_Key Gc.Proofs_Det Gc.Proofs_Collect Gc.Proofs_Walk Gc.Proofs_Discard
-  Gc.Proofs_Current Gc.Proofs_Literal Gc.Proofs_Index Gc.Proofs_Tree Gc.Proofs_Weak.
+  Gc.Proofs_Current Gc.Proofs_Literal Gc.Proofs_Index Gc.Proofs_Tree Gc.Proofs_Weak Gc.Proofs_Rewrite.
+From Blue Require Lsm.Model Lsm.LoadProofs Lsm.Ordered Lsm.SortLemmas Lsm.CompactProofs Lsm.GcProofs
+  Gc.Bridge_Conserve Gc.Bridge_Lsm.
 Import ListNotations.
 Open Scope N_scope.
 From Blue Require Import Gc.Props_C05.
@@ -16,6 +18,9 @@ Check C05_gc_walk_spec : forall (A : Type) (add : A -> entry -> A) acc0 p es, so
 Check C05_gc_sync_never_errors : forall (A : Type) (add : A -> entry -> A) acc0 p es, sorted es -> gc_walk add acc0 p es <> WOutOfSync.
 Check C05_collector_eq_spec_weakly_sorted : forall p now es, wsorted es -> collect p es now = Some (map kr (gc_spec p now es)).
 Check C05_gc_sync_never_errors_weakly_sorted : forall (A : Type) (add : A -> entry -> A) acc0 p es, wsorted es -> gc_walk add acc0 p es <> WOutOfSync.
+Check C05_walk_weakly_sorted_guarantee : forall (A : Type) (add : A -> entry -> A) acc0 p es, wsorted es -> exists written dropped, gc_walk add acc0 p es = WOk written (fold_left add dropped acc0) /\ map kr written = map kr (gc_spec p 0 es) /\ sublist written es /\ Permutation es (written ++ dropped).
+Check C05_walk_writes_spec_refuted : exists p es, wsorted es /\ match gc_walk (fun (a : unit) _ => a) tt p es with | WOk written _ => written <> gc_spec p 0 es /\ exists e, In e (gc_spec p 0 es) /\ ~ In e written | WOutOfSync => False end.
+Check C05_walk_writes_spec_outside_known : forall (A : Type) (add : A -> entry -> A) acc0 p es, wsorted es -> ~ Known_duplicate_keyref es -> gc_walk add acc0 p es = WOk (gc_spec p 0 es) (fold_left add (gc_dropped p 0 es) acc0).
 Check C05_discard_is_dropped : forall H, hash_ok H -> forall p es, sorted es -> gc_walk_setsum H p es = WOk (gc_spec p 0 es) (entries_setsum H (gc_dropped p 0 es)).
 Check C05_written_plus_dropped_is_input : forall p now es, sorted es -> Permutation es (gc_spec p now es ++ gc_dropped p now es).
 Check C05_books_balance : forall H, hash_ok H -> forall p es, sorted es -> entries_setsum H es = add_state (entries_setsum H (gc_spec p 0 es)) (entries_setsum H (gc_dropped p 0 es)).
@@ -24,9 +29,16 @@ Check C05_versions_deciding_entry : forall n now vs, match vs with | [] => spec_
 Check C05_default_policy_closed_form : forall now vs, spec_key (PVersions 1) now 0 vs = match vs with | e :: _ => if is_value e then [e] else [] | [] => [] end.
 Check C05_current_preserved_refuted : exists p es k, sorted es /\ match gc_walk (fun (a : unit) _ => a) tt p es with | WOk written _ => visible written k <> visible es k | WOutOfSync => False end.
 Check C05_current_preserved_outside_known : forall p, ~ Known_retain_nothing p -> forall (A : Type) (add : A -> entry -> A) acc0 es, sorted es -> exists written discard, gc_walk add acc0 p es = WOk written discard /\ forall k, visible written k = visible es k.
-Check C05_tree_read_refuted : exists p rest es k, keeps_newest p = true /\ sorted es /\ match gc_walk (fun (a : unit) _ => a) tt p es with | WOk written _ => read (rest ++ written) k <> read (rest ++ es) k | WOutOfSync => False end.
-Check C05_tree_read_outside_known : forall p, ~ Known_retain_nothing p -> forall (A : Type) (add : A -> entry -> A) acc0 rest es k, sorted es -> ~ Known_inputs_not_closed rest es k -> exists written discard, gc_walk add acc0 p es = WOk written discard /\ read (rest ++ written) k = read (rest ++ es) k.
+Check C05_tree_read_preserved : forall p, ~ Known_retain_nothing p -> forall (A : Type) (add : A -> entry -> A) acc0 rest es k, sorted es -> inputs_closed_for rest es k -> exists written discard, gc_walk add acc0 p es = WOk written discard /\ read (rest ++ written) k = read (rest ++ es) k.
+Check C05_tree_read_needs_closed_inputs : exists p rest es k, keeps_newest p = true /\ sorted es /\ ~ inputs_closed_for rest es k /\ match gc_walk (fun (a : unit) _ => a) tt p es with | WOk written _ => read (rest ++ written) k <> read (rest ++ es) k | WOutOfSync => False end.
 Check C05_read_by_timestamp_is_first : forall es k, sorted es -> read es k = visible es k.
 Check C05_expires_never_collects_in_lsmtk : forall m w ts, sat (PExpires m) 0 w ts = true.
 Check C05_gc_only_top_level : forall ninputs upper, dispatch ninputs upper = KGc -> upper = GC_NUM_LEVELS - 1 /\ ninputs <> 1.
-Check C05_rewrite_writes_everything : forall (A : Type) (acc0 : A) es, rewrite_walk acc0 es = WOk es acc0.
+Check C05_rewrite_writes_everything_once : forall (target_full minimum_full : list entry -> bool) (main : list (bool * entry)), concat (rewrite_outputs target_full minimum_full main) = map snd main /\ Forall (fun f => f <> []) (rewrite_outputs target_full minimum_full main).
+Check C05_compaction_conserves_entries : forall v c outs, Lsm.Model.valid_compactionb v c = true -> Lsm.Model.outputs_okb v c outs = true -> Permutation (Lsm.Model.file_entries (Lsm.Model.apply_compaction v c outs)) (Lsm.Model.file_entries v).
+Check C05_rewrite_conserves_entries : forall v c target_full minimum_full main outs, Lsm.Model.valid_compactionb v c = true -> map snd main = map Gc.Bridge_Lsm.to_gc (Lsm.Model.sort_entries (Lsm.Model.input_entries v c)) -> map Lsm.Model.fents outs = map (map Gc.Bridge_Lsm.of_gc) (rewrite_outputs target_full minimum_full main) -> Permutation (Lsm.Model.file_entries (Lsm.Model.apply_compaction v c outs)) (Lsm.Model.file_entries v).
+Check C05_merged_inputs_sorted : forall s c, Lsm.LoadProofs.wf_version (Lsm.Model.ver s) -> Lsm.Ordered.Ordered s -> Lsm.Model.valid_compactionb (Lsm.Model.ver s) c = true -> sorted (map Gc.Bridge_Lsm.to_gc (Lsm.Model.sort_entries (Lsm.Model.input_entries (Lsm.Model.ver s) c))).
+Check C05_collector_outputs_admissible : forall v c outs p, keeps_newest p = true -> flat_map Lsm.Model.fents outs = map Gc.Bridge_Lsm.of_gc (gc_spec p 0 (map Gc.Bridge_Lsm.to_gc (Lsm.Model.sort_entries (Lsm.Model.input_entries v c)))) -> forallb (fun f => match Lsm.Model.fents f with [] => false | _ => true end) outs = true -> Lsm.Model.gc_outputs_okb v c outs = true.
+Check C05_gc_installed_preserves_reads : forall s c p outs k, Lsm.LoadProofs.wf_version (Lsm.Model.ver s) -> Lsm.Ordered.Ordered s -> Lsm.Model.valid_compactionb (Lsm.Model.ver s) c = true -> keeps_newest p = true -> S (Lsm.Model.cupper c) = length (Lsm.Model.ver s) -> flat_map Lsm.Model.fents outs = map Gc.Bridge_Lsm.of_gc (gc_spec p 0 (map Gc.Bridge_Lsm.to_gc (Lsm.Model.sort_entries (Lsm.Model.input_entries (Lsm.Model.ver s) c)))) -> forallb (fun f => match Lsm.Model.fents f with [] => false | _ => true end) outs = true -> Lsm.GcProofs.hd_value (Lsm.Model.kview (Lsm.Model.compact s c outs) k) = Lsm.GcProofs.hd_value (Lsm.Model.kview s k) /\ Lsm.Ordered.desc_ts (Lsm.Model.kview (Lsm.Model.compact s c outs) k) /\ (forall e, In e (Lsm.Model.kview (Lsm.Model.compact s c outs) k) -> In e (Lsm.Model.kview s k)).
+Check C05_inputs_closed_from_tree_invariant : forall s c k outs, Lsm.LoadProofs.wf_version (Lsm.Model.ver s) -> Lsm.Ordered.Ordered s -> Lsm.Model.valid_compactionb (Lsm.Model.ver s) c = true -> S (Lsm.Model.cupper c) = length (Lsm.Model.ver s) -> exists A B, Lsm.Model.kview s k = A ++ Lsm.GcProofs.J s c k ++ B /\ Lsm.Model.kview (Lsm.Model.compact s c outs) k = A ++ Lsm.CompactProofs.K k outs ++ B /\ (Lsm.GcProofs.J s c k <> [] -> B = []) /\ inputs_closed_for (map Gc.Bridge_Lsm.to_gc A) (map Gc.Bridge_Lsm.to_gc (Lsm.Model.sort_entries (Lsm.Model.input_entries (Lsm.Model.ver s) c))) k.
+Check C05_gc_conserves_entries_up_to_dropped : forall s c p outs, Lsm.LoadProofs.wf_version (Lsm.Model.ver s) -> Lsm.Ordered.Ordered s -> Lsm.Model.valid_compactionb (Lsm.Model.ver s) c = true -> flat_map Lsm.Model.fents outs = map Gc.Bridge_Lsm.of_gc (gc_spec p 0 (map Gc.Bridge_Lsm.to_gc (Lsm.Model.sort_entries (Lsm.Model.input_entries (Lsm.Model.ver s) c)))) -> Permutation (Lsm.Model.file_entries (Lsm.Model.apply_compaction (Lsm.Model.ver s) c outs) ++ map Gc.Bridge_Lsm.of_gc (gc_dropped p 0 (map Gc.Bridge_Lsm.to_gc (Lsm.Model.sort_entries (Lsm.Model.input_entries (Lsm.Model.ver s) c))))) (Lsm.Model.file_entries (Lsm.Model.ver s)).
